@@ -358,7 +358,10 @@ pub fn check(case: &Case) -> Verdict {
     if let Some(Err(e)) = &obs.result {
         v.fail("agent-runtime:agent-failed", format!("the agent task ended with an error: {}", e));
     }
-    let timed_out = obs.stop.is_some() && obs.reasons.iter().any(|r| r == "AgentTimedOut");
+    // Nothing in a history stops the agent (no stop signal, no stop handler, remotes stay attached, the prune delay is
+    // far away), so if it stopped it stopped for inactivity - whichever task completed the vote (the remotes are told
+    // `AgentTimedOut` only when the write task did, `AgentStoppedExternally` otherwise).
+    let timed_out = obs.stop.is_some() && !matches!(obs.result, Some(Err(_)));
     if let (Some(stop), true) = (obs.stop, timed_out) {
         for (name, acts) in [("read", &obs.read), ("write", &obs.write), ("http", &obs.http)] {
             // ties are allowed on both sides: activity exactly `t` before the stop (the vote is cast at that instant)
